@@ -58,7 +58,9 @@ def run(ctx):
     own.check_borrowed(ctx, SL + ':' + name, ptypes, {}, borrowed, rule='OWN-RO')
   pairing(ctx)
   adjust_dominance(ctx)
-  from rules import C01, C10
+  from rules import C01, C10, C13
+  C13.no_negative_event_stored(ctx, 'WELLFORMED/no-negative-event-stored')      # "no time is negative" in the result of adjust / rectify_beats
+  C13.reversed_rejected(ctx, 'WELLFORMED/reversed-rejected')                    # "no note ends before it starts"
   C01.total_order(ctx, 'PAIR/steps-total-order')
   C10.kept_total_time(ctx, ctx.func(SL + ':transpose_note_sequence'), 'PAIR/recomputed-total')
   merge_scalars(ctx)
